@@ -184,6 +184,11 @@ def cases(tier, which):
             for cfg in MAIN_CFGS + ['extr', 'repl']:
                 yield ['tail', fi, t, cfg]
                 yield ['tail2', fi, t, cfg]
+    # (e) full option grid on a few rich documents (thorough)
+    if not quick:
+        for gi in range(len(GRID_DOCS)):
+            for vals in grid_points():
+                yield ['grid', gi, vals]
     if which == 'C07':
         yield from keyval_cases(tier)
         if not quick:
@@ -209,6 +214,38 @@ def keyval_cases(tier):
                 if k == L and fi > 1 and tier == 'quick':
                     continue
                 yield ['kv', fi, ''.join(c), 'de-all' if fi % 2 else 'en-ml']
+
+
+GRID = {'lang': ['en', 'de', 'ru'], 'pack': ['', '*', 'babel,amsmath'], 'dcls': ['', 'scrartcl'], 'defs': [None, DEFS],
+        'extr': [None, 'footnote,caption'], 'seqs': [False, True], 'nosp': [False, True], 'repl': [None, REPL], 'ml': [False, True]}
+
+
+def grid_points():
+    keys = list(GRID)
+    for vals in itertools.product(*[range(len(GRID[k])) for k in keys]):
+        yield list(vals)
+
+
+def grid_config(vals):
+    keys = list(GRID)
+    o = {}
+    ml = False
+    for k, v in zip(keys, vals):
+        val = GRID[k][v]
+        if k == 'ml':
+            ml = val
+        elif val not in (None, False, ''):
+            o[k] = val
+        elif k == 'pack':
+            o[k] = ''
+    if ml:
+        o['lang'] = {'en': 'en-GB', 'de': 'de-DE', 'ru': 'ru-RU'}[o.get('lang', 'en')]
+    return o, ml
+
+
+GRID_DOCS = ['A \\footnote{B $x$} \\begin{equation}a=b.\\end{equation} C\\section{D}\\LTskip{E} F',
+             '\\usepackage{babel} Waaq Wabq Wacq \\foreignlanguage{german}{G "a} H \\caption{I} \\verb|x| --- \\item J',
+             '$x \\begin{itemize} \\item[ \\verb|', '']
 
 
 def hash_small(c):
@@ -243,6 +280,8 @@ def source_of(case):
         return 'A\\footnote{B ' + TAIL_FAULTS[case[1]] + TAIL[:case[2]], case[3]
     if kind == 'kv':
         return 'A ' + KV_FRAMES[case[1]] % case[2] + ' B\n', case[3]
+    if kind == 'grid':
+        return GRID_DOCS[case[1]], 'grid:' + ','.join(map(str, case[2]))
     raise ValueError(kind)
 
 
@@ -256,9 +295,15 @@ def run(case):
         ex = raw_excluded(case[1], full_vocab())
         if ex:
             return src, cfg, None, ex
-    opts, ml = CONFIGS[cfg]
+    opts, ml = config_of(cfg)
     o = impl.run_filter(src, opts, ml=ml)
     return src, cfg, o, None
+
+
+def config_of(cfg):
+    if cfg.startswith('grid:'):
+        return grid_config([int(x) for x in cfg[5:].split(',')])
+    return CONFIGS[cfg]
 
 
 def bounds(tier, which):
@@ -268,12 +313,12 @@ def bounds(tier, which):
             'faults': ['every prefix', 'every suffix', 'every single-character deletion'] +
                       (['every single-character duplication', 'key-value parser strings'] if which == 'C07' else []) +
                       (['all pairs of deletions on the first 160 characters'] if which == 'C07' and tier != 'quick' else []),
-            'tail_faults': len(TAIL_FAULTS), 'tail_lengths': '0..16', 'configurations': {k: repr(v) for k, v in CONFIGS.items()}}
+            'option_grid': ('%d combinations x %d documents' % (len(list(grid_points())), len(GRID_DOCS))) if tier != 'quick' else 'thorough tier only', 'tail_faults': len(TAIL_FAULTS), 'tail_lengths': '0..16', 'configurations': {k: repr(v) for k, v in CONFIGS.items()}}
 
 
 def explain(case):
     src, cfg, o, skip = run(case)
-    s = 'case %r\nsource %r\nconfig %s = %r\n' % (case, src, cfg, CONFIGS.get(cfg))
+    s = 'case %r\nsource %r\nconfig %s = %r\n' % (case, src, cfg, config_of(cfg) if cfg else None)
     if skip:
         return s + 'skipped: ' + skip
     return s + 'result kind=%s info=%s\nvalue %r\nstderr %r' % (o.kind, o.info, o.result, o.stderr[:500])
